@@ -251,7 +251,8 @@ Record client := {
   cl_resources : list bytes;        (* resource ids held by the resource managers' caches *)
   cl_cur : option bytes;            (* address of the open session; None = disconnected *)
   cl_server : list (bytes * N);     (* serverSessions: address -> number of recorded sessions *)
-  cl_all : N                        (* allSessions: size of the registry used for selection *)
+  cl_all : N;                       (* allSessions: size of the registry used for selection *)
+  cl_tm : bool                      (* RegisterTM has been written successfully on the open session *)
 }.
 Definition cl_connected (c : client) : bool := match cl_cur c with Some _ => true | None => false end.
 
@@ -259,7 +260,10 @@ Inductive cevent :=
 | CRegisterResource (r : bytes)     (* RegisterResource: cached, announced once if connected *)
 | CConnLost (by_peer : bool)        (* OnClose / OnError -> releaseSession; by_peer: the session is
                                        already closed when it is released *)
-| CReconnect (a : bytes).           (* getty (re)connects to address a: OnOpen on a new session *)
+| CReconnect (a : bytes) (write_ok : bool).
+                                    (* getty (re)connects to address a: OnOpen on a new session;
+                                       write_ok = false: WritePkg of the RegisterTMRequest fails
+                                       (write timeout, full buffer) while the session is open *)
 
 (* gettyClientHandler.OnOpen: registerSession, then RegisterTMRequest; nothing else,
    whatever the per-address map holds *)
@@ -283,7 +287,8 @@ Fixpoint cnt_of (t : list (bytes * N)) (a : bytes) : N :=
 Definition cstep (c : client) (e : cevent) : client * list request :=
   match e with
   | CRegisterResource r =>
-      ({| cl_resources := cl_resources c ++ [r]; cl_cur := cl_cur c; cl_server := cl_server c; cl_all := cl_all c |},
+      ({| cl_resources := cl_resources c ++ [r]; cl_cur := cl_cur c; cl_server := cl_server c;
+          cl_all := cl_all c; cl_tm := cl_tm c |},
        if cl_connected c then [RegisterRM r] else [])
   | CConnLost by_peer =>
       (* releaseSession: always dropped from allSessions; dropped from the per-address
@@ -293,26 +298,33 @@ Definition cstep (c : client) (e : cevent) : client * list request :=
       | Some a =>
           ({| cl_resources := cl_resources c; cl_cur := None;
               cl_server := if by_peer then cl_server c else cnt_upd (cl_server c) a (fun v => v - 1);
-              cl_all := cl_all c - 1 |}, [])
+              cl_all := cl_all c - 1; cl_tm := false |}, [])
       end
-  | CReconnect a =>
+  | CReconnect a true =>
       ({| cl_resources := cl_resources c; cl_cur := Some a;
-          cl_server := cnt_upd (cl_server c) a (fun v => v + 1); cl_all := cl_all c + 1 |},
+          cl_server := cnt_upd (cl_server c) a (fun v => v + 1); cl_all := cl_all c + 1; cl_tm := true |},
        on_open c)
+  | CReconnect a false =>
+      (* registerSession, the announcement cannot be written, OnOpen releases the (open)
+         session again: nothing stays registered, getty will reconnect *)
+      ({| cl_resources := cl_resources c; cl_cur := None;
+          cl_server := cnt_upd (cnt_upd (cl_server c) a (fun v => v + 1)) a (fun v => v - 1);
+          cl_all := cl_all c; cl_tm := false |}, [])
   end.
 
 (* the client before its first connection *)
-Definition cinit : client := {| cl_resources := []; cl_cur := None; cl_server := []; cl_all := 0 |}.
+Definition cinit : client := {| cl_resources := []; cl_cur := None; cl_server := []; cl_all := 0; cl_tm := false |}.
 
-(* runs a history; returns the final client and, for every CReconnect in order,
-   the requests written on the new session together with the client at that time *)
+(* runs a history; returns the final client and, for every session that stays
+   established (CReconnect _ true) in order, the requests written on it together with
+   the client at that time *)
 Fixpoint crun (c : client) (evs : list cevent) : client * list (client * list request) :=
   match evs with
   | [] => (c, [])
   | e :: evs' =>
       let '(c', out) := cstep c e in
       let '(cf, rest) := crun c' evs' in
-      (cf, match e with CReconnect _ => (c, out) :: rest | _ => rest end)
+      (cf, match e with CReconnect _ true => (c, out) :: rest | _ => rest end)
   end.
 
 Definition req_eqb (a b : request) : bool :=
